@@ -6,11 +6,17 @@ use proptest::strategy::{Strategy, ValueTree};
 use proptest::test_runner::{Config, RngAlgorithm, TestCaseError, TestError, TestRng, TestRunner};
 use std::cell::Cell;
 
+static MAX_SHRINK: std::sync::atomic::AtomicU32 = std::sync::atomic::AtomicU32::new(4096);
+/// checks whose single evaluation is expensive bound the shrinking work
+pub fn set_max_shrink_iters(n: u32) {
+    MAX_SHRINK.store(n, std::sync::atomic::Ordering::Relaxed);
+}
+
 pub fn config(cases: u32) -> Config {
     let mut c = Config::default();
     c.cases = cases;
     c.failure_persistence = None;
-    c.max_shrink_iters = 4096;
+    c.max_shrink_iters = MAX_SHRINK.load(std::sync::atomic::Ordering::Relaxed);
     c.max_global_rejects = 1_000_000;
     c.source_file = None;
     c.verbose = 0;
